@@ -1,3 +1,7 @@
--- This module serves as the root of the `DelbModel` library.
--- Import modules here that should be built as part of the library.
-import DelbModel.Basic
+-- root of the library: models, generated tables, lemmas and property theorems
+import DelbModel.Generated.Tables
+import DelbModel.Model.Tree
+import DelbModel.Model.Wrap
+import DelbModel.Model.Whitespace
+import DelbModel.Lemmas.Wrap
+import DelbModel.Props.C19
